@@ -283,3 +283,29 @@ case("C13", "A-zero-fill-spelling", "HOLDS", [(TT, "\tn = n_bins*nq + nq*offset\
 case("C11", "returns-wrong-offset", "VIOLATION", [(FI, "\treturn smallest, logpdf", "\treturn log_pwm_min_csum, logpdf")], "OFFSET")
 case("C01", "multi-mutates-spacing-list", "VIOLATION", [(E, "\tfor i in range(len(spacing)):\n\t\tX = substitute(X, motifs[i], start=start, alphabet=alphabet)", "\tspacing.append(0)\n\tspacing.pop()\n\tfor i in range(len(spacing)):\n\t\tX = substitute(X, motifs[i], start=start, alphabet=alphabet)")], "R-PURE", "ersatz.multisubstitute")
 case("C07", "register-not-idempotent", "VIOLATION", [(D, "\tif len(module._backward_hooks) > 0:\n\t\treturn\n\tif not isinstance(module, tuple(module._NON_LINEAR_OPS.keys())):", "\tif not isinstance(module, tuple(module._NON_LINEAR_OPS.keys())):")], "HOOK-PAIRING")
+
+# ------------------------------------------------------------------ C04 / C05
+for _p in ("C04", "C05"):
+    case(_p, _p + "-ratio-inverted", "VIOLATION", [(D, "\tdelta = delta_out / delta_in\n\tidxs = torch.abs(delta_in) < 1e-6\n\n\treturn (torch.where(idxs, grad_input[0], grad_output[0] * delta),)", "\tdelta = delta_in / delta_out\n\tidxs = torch.abs(delta_in) < 1e-6\n\n\treturn (torch.where(idxs, grad_input[0], grad_output[0] * delta),)")], "R-TERM", "deep_lift_shap._nonlinear")
+    case(_p, _p + "-where-arms-swapped", "VIOLATION", [(D, "return (torch.where(idxs, grad_input[0], grad_output[0] * delta),)", "return (torch.where(idxs, grad_output[0] * delta, grad_input[0]),)")], "R-TERM", "deep_lift_shap._nonlinear")
+    case(_p, _p + "-orientation-one-sided", "VIOLATION", [(D, "\tdelta_in_ = torch.sub(*module.input.chunk(2))\n\tdelta_out_ = torch.sub(*module.output.chunk(2))\n\n\tdelta_in = torch.cat([delta_in_, delta_in_])\n\tdelta_out = torch.cat([delta_out_, delta_out_])\n\n\tdelta = delta_out / delta_in\n\tidxs = torch.abs(delta_in) < 1e-6\n\n\treturn (torch.where", "\tdelta_in_ = torch.sub(*module.input.chunk(2))\n\tdelta_out_ = -torch.sub(*module.output.chunk(2))\n\n\tdelta_in = torch.cat([delta_in_, delta_in_])\n\tdelta_out = torch.cat([delta_out_, delta_out_])\n\n\tdelta = delta_out / delta_in\n\tidxs = torch.abs(delta_in) < 1e-6\n\n\treturn (torch.where")], "R-TERM", "deep_lift_shap._nonlinear")
+    case(_p, _p + "-equivalent-spelling", "HOLDS", [(D, "\tdelta = delta_out / delta_in\n\tidxs = torch.abs(delta_in) < 1e-6\n\n\treturn (torch.where(idxs, grad_input[0], grad_output[0] * delta),)", "\tidxs = torch.abs(delta_in) < 1e-6\n\n\treturn (torch.where(idxs, grad_input[0], grad_output[0] * delta_out * (1 / delta_in)),)")])
+    case(_p, _p + "-hypothetical-uses-X", "VIOLATION", [(D, "hypothetical_diffs = hypothetical_input - references[0]", "hypothetical_diffs = X[0] - references[0]")], "R-TERM", "deep_lift_shap.hypothetical_attributions")
+    case(_p, _p + "-table-gelu-removed", "VIOLATION", [(D, "\t\ttorch.nn.GELU: _nonlinear,\n", "")], "R-TABLE")
+case("C04", "C04-tau-large", "VIOLATION", [(D, "\tdelta = delta_out / delta_in\n\tidxs = torch.abs(delta_in) < 1e-6\n\n\treturn (torch.where", "\tdelta = delta_out / delta_in\n\tidxs = torch.abs(delta_in) < 1e-2\n\n\treturn (torch.where")], "R-TERM")
+case("C04", "C04-refs-first", "VIOLATION", [(D, "X_ = torch.cat([_X, _references])", "X_ = torch.cat([_references, _X])")], "HALVES")
+case("C04", "C04-hook-capture-no-clone-ok", "HOLDS", [(D, "\t\ttorch.nn.PReLU: _nonlinear,\n\t\ttorch.nn.MaxPool1d: _maxpool,", "\t\ttorch.nn.MaxPool1d: _maxpool,\n\t\ttorch.nn.PReLU: _nonlinear,")], note="reordered dict entries")
+case("C04", "C04-hypothetical-gather-argmax", "VIOLATION", [(D, "\tprojected_contribs = torch.zeros_like(references[0], dtype=X[0].dtype, \n\t\tdevice=X[0].device)\n\t\n\tfor i in range(X[0].shape[1]):\n\t\thypothetical_input = torch.zeros_like(X[0], dtype=X[0].dtype, \n\t\t\tdevice=X[0].device)\n\t\thypothetical_input[:, i] = 1.0\n\t\thypothetical_diffs = hypothetical_input - references[0]\n\t\thypothetical_contribs = hypothetical_diffs * multipliers[0]\n\n\t\tprojected_contribs[:, i] = torch.sum(hypothetical_contribs, dim=1)\n", "\tref_idxs = references[0].argmax(dim=1, keepdim=True)\n\tref_contribs = torch.gather(multipliers[0], 1, ref_idxs)\n\tprojected_contribs = (multipliers[0] - ref_contribs).type(X[0].dtype)\n")], "LINEAR-REF")
+case("C05", "C05-sum-not-mean", "VIOLATION", [(D, "attr_chunk = attr_chunk.mean(dim=0)", "attr_chunk = attr_chunk.sum(dim=0)")], "PROCESS")
+case("C05", "C05-mask-always", "VIOLATION", [(D, "\t\t\t\t\t\tif not hypothetical:\n\t\t\t\t\t\t\tattr_chunk *= X[z].cpu()", "\t\t\t\t\t\tif True:\n\t\t\t\t\t\t\tattr_chunk *= X[z].cpu()")], "PROCESS")
+
+# ------------------------------------------------------------------ C06
+case("C06", "seed-by-batch-position", "VIOLATION", [(D, "random_state=random_state+rj[j])[:, 0] ", "random_state=random_state+j)[:, 0] ")], "R-RNG")
+case("C06", "refs-per-run", "VIOLATION", [(D, "\t\t\t\t\t\t_references = torch.cat([references(_X[j:j+1], n=1, \n\t\t\t\t\t\t\trandom_state=random_state+rj[j])[:, 0] \n\t\t\t\t\t\t\t\tfor j in range(len(_X))])", "\t\t\t\t\t\tb = [0] + [j for j in range(1, len(rj)) if rj[j] == 0]\n\t\t\t\t\t\t_references = torch.cat([references(_X[s:e], n=1,\n\t\t\t\t\t\t\trandom_state=random_state+rj[s])[:, 0]\n\t\t\t\t\t\t\t\tfor s, e in zip(b, b[1:] + [len(rj)])])")], "R-RNG")
+case("C06", "no-final-flush", "VIOLATION", [(D, "if len(Xi) == batch_size or i == (n-1):", "if len(Xi) == batch_size:")], "R-FLUSH")
+case("C06", "args-gather-rj", "VIOLATION", [(D, "tuple([a[Xi].to(device) ", "tuple([a[rj].to(device) ")], "R-ARGWIN")
+case("C06", "queue-z-not-advanced", "VIOLATION", [(D, "\t\t\t\t\tattr_ = attr_[n_shuffles:]\n\t\t\t\t\tz += 1\n", "\t\t\t\t\tattr_ = attr_[n_shuffles:]\n")], "QUEUE")
+case("C06", "only-xi-reset", "VIOLATION", [(D, "\t\t\t\tXi, rj = [], []\n", "\t\t\t\tXi = []\n")], "R-FLUSH")
+case("C06", "pairs-shuffle-major", "VIOLATION", [(D, "\t\t\tXi.append(i // n_shuffles)\n\t\t\trj.append(i % n_shuffles)", "\t\t\tXi.append(i % X.shape[0])\n\t\t\trj.append(i // X.shape[0])")], "PAIRS")
+case("C06", "refs-layout-swapped", "VIOLATION", [(D, "references_ = torch.cat(references_).reshape(X.shape[0], n_shuffles, \n\t\t\t*X.shape[1:])", "references_ = torch.cat(references_).reshape(n_shuffles, X.shape[0], \n\t\t\t*X.shape[1:]).transpose(0, 1)")], "R-AXES")
+case("C06", "input-masked-in-place", "VIOLATION", [(D, "\tattributions, references_, Xi, rj, attr_ = [], [], [], [], []", "\tattributions, references_, Xi, rj, attr_ = [], [], [], [], []\n\tX *= 1")], "R-PURE")
